@@ -9,7 +9,7 @@ functions changes the generated definition and breaks the theorem here.
 
 `toVC` / `toSpec` only rename fields (generated structures carry the Rust field names).
 -/
-namespace VlsModel.Props.C12Gen
+namespace VlsModel.Props.C12Fn
 open VlsModel VlsModel.Velocity
 open VlsModel.Gen.FnVelocity
 
@@ -27,26 +27,26 @@ def toRes (r : Rs.M (VelocityControl × Bool)) : Option (VC × Bool) :=
   | .ok (g, b) => some (toVC g, b)
   | .error _ => none
 
-theorem C12_gen_spec_to_triple (s : VelocityControlSpec) :
+theorem C12_fn_spec_to_triple (s : VelocityControlSpec) :
     VelocityControl.spec_to_triple s = (toSpec s).triple := by
   cases s with | mk l it => cases it <;> rfl
 
-theorem C12_gen_is_unlimited (g : VelocityControl) : g.is_unlimited = (toVC g).isUnlimited := rfl
+theorem C12_fn_is_unlimited (g : VelocityControl) : g.is_unlimited = (toVC g).isUnlimited := rfl
 
-theorem C12_gen_spec_matches (g : VelocityControl) (s : VelocityControlSpec) :
+theorem C12_fn_spec_matches (g : VelocityControl) (s : VelocityControlSpec) :
     g.spec_matches s = (toVC g).specMatches (toSpec s) := by
-  simp only [VelocityControl.spec_matches, VC.specMatches, C12_gen_spec_to_triple]
+  simp only [VelocityControl.spec_matches, VC.specMatches, C12_fn_spec_to_triple]
   rfl
 
-theorem C12_gen_update_spec (g : VelocityControl) (s : VelocityControlSpec) :
+theorem C12_fn_update_spec (g : VelocityControl) (s : VelocityControlSpec) :
     toVC (g.update_spec s) = (toVC g).updateSpec (toSpec s) := by
-  simp only [VelocityControl.update_spec, VC.updateSpec, C12_gen_spec_matches, C12_gen_spec_to_triple]
+  simp only [VelocityControl.update_spec, VC.updateSpec, C12_fn_spec_matches, C12_fn_spec_to_triple]
   cases h : (toVC g).specMatches (toSpec s) <;> simp [toVC, VC.ofSpec, VC.newWithIntervals, Rs.vecResize]
 
-theorem C12_gen_velocity (g : VelocityControl) : g.velocity = (toVC g).velocity := rfl
+theorem C12_fn_velocity (g : VelocityControl) : g.velocity = (toVC g).velocity := rfl
 
 /-- the shift loop of `insert` (`for _ in 0..nshift { self.buckets.insert(0, 0) }`) prepends `n` zeros -/
-theorem C12_gen_shift_loop (n : Nat) : ∀ s : VelocityControl,
+theorem C12_fn_shift_loop (n : Nat) : ∀ s : VelocityControl,
     Rs.iter (fun s : VelocityControl => { s with buckets := 0 :: s.buckets }) n s
       = { s with buckets := List.replicate n 0 ++ s.buckets } := by
   induction n with
@@ -56,7 +56,7 @@ theorem C12_gen_shift_loop (n : Nat) : ∀ s : VelocityControl,
 /-- `insert`: the generated body and the model agree on every input, including which inputs panic
     (`current_sec < start_sec`: `-` overflows; `bucket_interval = 0`: division; empty bucket vector on the
     approving branch: `self.buckets[0]`). -/
-theorem C12_gen_insert (g : VelocityControl) (now amt : Nat) :
+theorem C12_fn_insert (g : VelocityControl) (now amt : Nat) :
     toRes (g.insert now amt) = (toVC g).insert now amt := by
   unfold VelocityControl.insert VC.insert
   by_cases h1 : now < g.start_sec
@@ -68,7 +68,7 @@ theorem C12_gen_insert (g : VelocityControl) (now amt : Nat) :
         Rs.bind_ok, Rs.pure_eq]
       rw [Rs.foldlM_ok _ (fun s : VelocityControl => { s with buckets := 0 :: s.buckets })
         (by intro s x; simp [Rs.vecInsert_zero])]
-      simp only [Rs.range_length, C12_gen_shift_loop, Rs.bind_ok, h2, if_false, Nat.mod_le, if_true, Nat.sub_zero]
+      simp only [Rs.range_length, C12_fn_shift_loop, Rs.bind_ok, h2, if_false, Nat.mod_le, if_true, Nat.sub_zero]
       rw [Rs.vecResize_le _ _ _ (Nat.sub_le _ _)]
       have hB : ∀ k, shift g.buckets k = List.replicate k 0 ++ g.buckets.take (g.buckets.length - k) := fun _ => rfl
       simp only [hB]
@@ -87,4 +87,4 @@ theorem C12_gen_insert (g : VelocityControl) (now amt : Nat) :
           Nat.zero_lt_succ, if_true, List.set_cons_zero]
         split <;> simp_all [toRes, toVC]
 
-end VlsModel.Props.C12Gen
+end VlsModel.Props.C12Fn
